@@ -25,7 +25,8 @@ def replay(case):
     m = len(mlist)
     for trial in range(3):
         rho = tp.random_state(N, rnd)
-        prep = QuantumCircuit(N)
+        prep = tp.make_prep(N, case.get("variant", "plain") if mq is not None else "plain")
+        ncl = prep.num_clbits
         try:
             if which == "tomography":
                 circs = tm.full_state_tomography_circuits(prep, conn, mq)
@@ -44,7 +45,7 @@ def replay(case):
                             x = [x[q] ^ R[q][j] for q in range(n)]
                             z = [z[q] ^ S[q][j] for q in range(n)]
                     labels_m.append(label_of_xz(x, z))
-            counts = [tp.native_counts(c, rho, N) for c in circs]
+            counts = [tp._with_cregs(tp.native_counts(c, rho, N), ncl) for c in circs]
             orders = ((True,),) if mq is None else ((False, True), (True, False))
             for order in orders:
                 fit = tm.FullStateTomographyFitter(_Res(counts), circs) if which == "tomography" else tm.StabilizerMeasurementFitter(_Res(counts), circs[0])
